@@ -5,6 +5,7 @@ import small_corr, text_corr, factory_corr
 def explore(run, lean):
     quick = run.tier == "quick"
     small_corr.explore_registry(run, 60 if quick else 1500)
+    small_corr.explore_registry_readers(run, 40 if quick else 1000)
     run.extra["rule"] = ("1-3 threads registering 1-4 names each (append / attribute access) on a fresh SignalSource: (A) lock-granularity schedules replayed on the Lean model, (B) bytecode-granularity random schedules of append/__getattr__/Event.__init__ checked by the oracle (distinct positive numbers, nothing renumbered, name_for_signal inverse, ten inner signals, no exception)")
     ROUND6_RULE = '; names of many shapes (dunder-like, leading / trailing underscores, dotted, spaces, long) first used through attribute access'
     run.extra["rule"] += ROUND6_RULE
